@@ -1,7 +1,8 @@
 """C08 - iterative (Dykstra) projection (L1 L2 L3 L4 P3 P4)."""
 import ast
 
-from ..model import AnalysisError, dotted, norm_text, names_read
+from ..model import (AnalysisError, dotted, norm_text, names_read,
+                     const_value)
 from ..rules import affine_rules
 from ..rules import dykstra
 from ..rules import stencil
@@ -53,9 +54,12 @@ def run(prog, res):
     dykstra.check_bookkeeping(prog, res, fn, body[0])
   _reversal_pairing(prog, res)
   _skip_tests(prog, res)
+  _group_dims(prog, res)
+  _centres(prog, res)
+  res.floor('O3', 1)
   res.floor('L4', 30)
   res.floor('P4', 4)
-  res.floor('L3s', 5)
+  res.floor('L3s', 12)
   res.exhaustive = True
 
 
@@ -139,3 +143,173 @@ def _skip_tests(prog, res):
                   'non-empty groups would be skipped or empty ones '
                   'projected' % norm_text(st.test)[:70])
   return n
+
+
+# ---------------------------------------------------------------------------
+def _tuple_positions(fn_node, source_names):
+  """{local name: position} for `a, b, c = <source>` unpackings."""
+  out = {}
+  for st in ast.walk(fn_node):
+    if isinstance(st, ast.Assign) and isinstance(st.targets[0], ast.Tuple) \
+        and dotted(st.value) in source_names:
+      for i, t in enumerate(st.targets[0].elts):
+        if isinstance(t, ast.Name):
+          out[t.id] = (dotted(st.value), i)
+  return out
+
+
+def _group_dims(prog, res):
+  """L3s (dimension binding): the skip test of a constraint group compares
+  group index k with the size of some dimension; the partial projection
+  iterates `range(group[k], lattice_sizes[d] - 1, 2)`.  Both must name the
+  SAME dimension of the constraint (same position of the constraint tuple,
+  or the same forwarded argument) - with the sizes swapped a non-empty parity
+  class of a lattice with unequal sizes is never projected."""
+  dyk = prog.function(LL + '.project_by_dykstra')
+  body = [n for n in ast.walk(dyk.node) if isinstance(n, ast.FunctionDef)
+          and n.name == 'body'][0]
+  n = 0
+  for outer in ast.walk(body):
+    if not isinstance(outer, ast.For):
+      continue
+    for loop in outer.body:
+      if not (isinstance(loop, ast.For) and dotted(loop.target) ==
+              'constraint_group'):
+        continue
+      calls = [c for c in ast.walk(loop) if isinstance(c, ast.Call) and
+               getattr(prog.resolve_call(dyk, c), 'name', '').startswith(
+                   '_project_partial')]
+      if not calls:
+        continue
+      callee = prog.resolve_call(dyk, calls[0])
+      res.analysed(callee)
+      from ..model import call_args
+      bound, _, _ = call_args(calls[0], callee.all_params)
+      # caller: group index k -> (kind, id) of the dimension it is compared to
+      cpos = _tuple_positions(outer, {dotted(outer.target)})
+      caller = {}
+      for st in loop.body:
+        if isinstance(st, ast.If) and any(isinstance(x, ast.Continue)
+                                          for x in st.body):
+          tests = st.test.values if isinstance(st.test, ast.BoolOp) else [
+              st.test]
+          for t in tests:
+            if not isinstance(t, ast.Compare):
+              continue
+            k = None
+            for x in ast.walk(t.left):
+              if isinstance(x, ast.Subscript) and dotted(
+                  x.value) == 'constraint_group':
+                k = const_value(x.slice, None)
+            if k is None and 'constraint_group' in names_read(t.left):
+              k = 'scalar'
+            d = None
+            for x in ast.walk(t.comparators[0]):
+              if isinstance(x, ast.Subscript) and dotted(
+                  x.value) == 'lattice_sizes':
+                d = dotted(x.slice)
+            if k is not None and d is not None:
+              caller[k] = cpos.get(d, ('var', d))
+      # callee: group index k -> dimension of its loop range
+      src = {p for p, v in bound.items() if dotted(v) == dotted(outer.target)}
+      kpos = _tuple_positions(callee.node, src)
+      inner = {}
+      for lp in ast.walk(callee.node):
+        if isinstance(lp, ast.For) and isinstance(lp.iter, ast.Call) and \
+            dotted(lp.iter.func) == 'range' and len(lp.iter.args) >= 2:
+          a0, a1 = lp.iter.args[0], lp.iter.args[1]
+          k = None
+          if isinstance(a0, ast.Subscript) and dotted(
+              a0.value) == 'constraint_group':
+            k = const_value(a0.slice, None)
+          elif dotted(a0) == 'constraint_group':
+            k = 'scalar'
+          d = None
+          for x in ast.walk(a1):
+            if isinstance(x, ast.Subscript) and dotted(
+                x.value) == 'lattice_sizes':
+              d = dotted(x.slice)
+          if k is not None and d is not None:
+            if d in kpos:
+              inner[k] = ('tuple', kpos[d][1])
+            elif d in bound:
+              inner[k] = ('var', dotted(bound[d]))
+            else:
+              inner[k] = ('?', d)
+      if not inner or not caller:
+        continue
+      for k in sorted(inner, key=str):
+        if k not in caller:
+          continue
+        got = caller[k]
+        got_n = ('tuple', got[1]) if got[0] == dotted(outer.target) else got
+        n += 1
+        res.check(got_n == inner[k], 'L3s',
+                  '%s|group-dim[%s]' % (callee.name, k), dyk.loc(loop),
+                  'group index %s is compared with the size of the dimension '
+                  'the projection iterates over' % k,
+                  'the skip test compares group index %s with the size of %s '
+                  'but %s iterates that index over %s: for unequal sizes a '
+                  'non-empty group is skipped and never projected' % (
+                      k, got_n, callee.name, inner[k]))
+  return n
+
+
+def _eval_size_expr(e, env):
+  if isinstance(e, ast.Constant):
+    return e.value
+  if isinstance(e, ast.BinOp):
+    a, b = _eval_size_expr(e.left, env), _eval_size_expr(e.right, env)
+    op = e.op
+    if isinstance(op, ast.Add):
+      return a + b
+    if isinstance(op, ast.Sub):
+      return a - b
+    if isinstance(op, ast.Mult):
+      return a * b
+    if isinstance(op, ast.FloorDiv):
+      return a // b
+    if isinstance(op, ast.Div):
+      return a / b
+  t = norm_text(e).replace(' ', '')
+  if t in env:
+    return env[t]
+  raise AnalysisError('centre expression `%s` not understood' % t)
+
+
+def _centres(prog, res):
+  """O3: the vertex at which a unimodal dimension turns is computed in two
+  places - the split `i < centre` of _project_partial_monotonicity and
+  `center` of the joint-unimodality hyperplanes.  They must be the same
+  function of the lattice size (evaluated for sizes 2..13: both are
+  floor-division forms of period 2)."""
+  a = prog.function(LL + '._project_partial_monotonicity')
+  b = prog.function(LL + '._project_partial_joint_unimodality')
+  res.analysed(a, b)
+  ea = eb = None
+  for st in ast.walk(a.node):
+    if isinstance(st, ast.Assign) and dotted(st.targets[0]) == \
+        'is_first_part' and isinstance(st.value, ast.Compare) and isinstance(
+            st.value.ops[0], ast.Lt) and dotted(st.value.left) == 'i':
+      ea = st.value.comparators[0]
+  for st in ast.walk(b.node):
+    if isinstance(st, ast.Assign) and dotted(st.targets[0]) == 'center' and \
+        isinstance(st.value, ast.ListComp):
+      eb = st.value.elt
+      var = dotted(st.value.generators[0].target)
+  if ea is None or eb is None:
+    raise AnalysisError('unimodality centre expressions not found')
+  diff = None
+  for s in range(2, 14):
+    va = _eval_size_expr(ea, {'lattice_sizes[dimension]': s})
+    vb = _eval_size_expr(eb, {var: s})
+    # `i < c` makes pairs (i, i+1) with i < c decreasing: the turning vertex
+    # is c itself
+    if va != vb and diff is None:
+      diff = (s, va, vb)
+  res.check(diff is None, 'O3', 'unimodality|centre-agreement', a.loc(ea),
+            'both sites turn at `%s`' % norm_text(eb),
+            'for lattice size %s the unimodal projection turns at vertex %s '
+            'but the joint-unimodality projection at vertex %s: the two '
+            'disagree on even sizes and feasible kernels are moved' % (
+                diff if diff else (0, 0, 0)))
